@@ -6,7 +6,7 @@ import math
 
 import common
 from common import LeanDriver, digest
-from impl_market import MarketRun, gen_history, small_scope_histories
+from impl_market import MarketRun, gen_history, small_scope_histories, small_scope_market_orders
 
 # which driver channels implicate which property (a divergence on a channel is reported only by
 # the properties whose theorems speak about the model function producing that channel)
@@ -543,7 +543,7 @@ def shrink(prop, cfg, ops, sig, budget=150):
 
 
 def run_market_property(ctx, prop, n_quick=400, ops_len=60, extra_gen=None, model_available=True,
-                        sweep_share=0.0):
+                        sweep_share=0.0, focus=None):
     rng = ctx.rng("market")
     n = n_quick * (ctx.scale if ctx.tier == "thorough" else 1)
     mon = MONITORS[prop]
@@ -564,6 +564,8 @@ def run_market_property(ctx, prop, n_quick=400, ops_len=60, extra_gen=None, mode
         for k in range(n):
             if rng.random() < sweep_share:
                 yield gen_history(rng, 30, profile="sweep")
+            elif focus and rng.random() < focus[1]:
+                yield gen_history(rng, rng.choice([30, 60, 90]), profile=focus[0])
             else:
                 yield gen_history(rng, rng.choice([20, 40, ops_len, ops_len]))
         if extra_gen is not None:
@@ -571,6 +573,8 @@ def run_market_property(ctx, prop, n_quick=400, ops_len=60, extra_gen=None, mode
                 yield c
         if ctx.tier == "thorough":
             for c in small_scope_histories(2):
+                yield c
+            for c in small_scope_market_orders(4):
                 yield c
 
     corpus_dir = common.os.path.join(common.VERIF, "harness", "corpus")
@@ -661,6 +665,12 @@ def run_market_property(ctx, prop, n_quick=400, ops_len=60, extra_gen=None, mode
                 elif l.startswith("summary"):
                     _, nl, nc, nd = l.split()
                     comparisons = {"lines": int(nl), "compared": int(nc), "driver_diffs_all_channels": int(nd)}
+    # the same market code inside whole simulations: closed-loop model (PamsModel/Sim.lean)
+    if model_available and prop in SIM_CHANNELS:
+        import sim_checks
+        sd, st = sim_checks.sim_batch(ctx, prop, 16 * (3 if ctx.tier == "thorough" else 1), SIM_CHANNELS[prop])
+        diffs += sd
+        comparisons["closed_loop"] = st
     return {
         "evaluations": len(hashes), "distinct_nontrivial": len(nontriv),
         "rule": RULES[prop], "samples": samples, "violations": violations, "diffs": diffs,
@@ -668,6 +678,14 @@ def run_market_property(ctx, prop, n_quick=400, ops_len=60, extra_gen=None, mode
         "monitor_checks": monitor_checks,
     }
 
+
+SIM_CHANNELS = {
+    "C01": ("sim.records",),
+    "C02": ("sim.records", "sim.final"),
+    "C03": ("sim.trace", "sim.records"),
+    "C04": ("sim.records", "sim.final"),
+    "C08": ("sim.final",),
+}
 
 RULES = {
     "C01": "random structured market histories (submit/cancel/tick/round/running switch; 7 profiles) + corpus; non-trivial = history containing a round with >=2 fills spanning >=2 limit levels or a market/limit pair; distinct = hash of (config, op list)",
